@@ -58,8 +58,23 @@ def judge(m, conn, N, qubits, prep_ops, dist_spec, kind=KIND, group=None, check_
             continue
         tol = 1e-9
         msgs += [("full-register mode: " if full else "reduced mode: ") + s for s in tomo.compare(ev, table, dists, ql, N, full, tol)]
-        # against the state itself
         nq = N if full else len(ql)
+        if group is not None:
+            # stabilizer measurement: exactly the 2^m unsigned elements of the measured group, identity included
+            mm = len(ql)
+            span = M.span_unsigned(M.parse_gens(group), mm)
+            want_keys = set()
+            for v in span:
+                pm = (v & ((1 << mm) - 1), v >> mm)
+                want_keys.add(tomo.embed(pm, ql) if full else pm)
+            got_keys = {tomo.pauli_to_model(p)[:2] for p in ev}
+            if got_keys != want_keys or len(ev) != 1 << mm:
+                msgs.append("%s: reported keys are not exactly the 2^%d elements of the measured group (%d reported, %d of them in the group)"
+                            % ("full-register mode" if full else "reduced mode", mm, len(ev), len(got_keys & want_keys)))
+            ident = [v for p, v in ev.items() if tomo.pauli_to_model(p)[:2] == (0, 0)]
+            if ident != [1.0]:
+                msgs.append("identity is reported as %r" % (ident,))
+        # against the state itself
         if dist_spec[0] in ("state", "dense"):
             gens = M.run(prep_ops, N) if dist_spec[0] == "state" else None
             psi = tomo.dense_run(prep_ops, N) if dist_spec[0] == "dense" else None
@@ -73,7 +88,7 @@ def judge(m, conn, N, qubits, prep_ops, dist_spec, kind=KIND, group=None, check_
                     break
             if kind == KIND and len(ev) != 4 ** len(ql):
                 msgs.append("fitter reports %d Paulis, expected 4^%d" % (len(ev), len(ql)))
-            if check_density and gens is not None:
+            if check_density and gens is not None and kind == KIND:
                 try:
                     rho = np.asarray(f.density_matrix(full_hilbert_space=full))
                     want_rho = model_density(gens, N, ql, full, table if kind != KIND else None)
